@@ -22,7 +22,7 @@ let static_cmd cmd tk = match cmd with
   | "wfg" -> Some (str_bool (wfGb (next_gtab tk)))
   | "group_path" -> let gt = next_gtab tk in let s = next_nat tk in let d = next_nat tk in
       Some (match group_path gt s d with None -> "none" | Some ((a, dd), c) -> Printf.sprintf "%d %d %d" (int_of_nat a) (int_of_nat dd) (int_of_nat c))
-  | "depth" -> let gt = next_gtab tk in let g = next_nat tk in Some (string_of_int (int_of_nat (depth gt g)))
+  | "depth" -> let gt = next_gtab tk in let g = next_nat tk in Some (string_of_int (int_of_nat (gdepth gt g)))
   | "connect_interval" -> let gt = next_gtab tk in let s = next_nat tk in let d = next_nat tk in let sh = next_z tk in let w = next_z tk in
       Some (match connect_interval gt s d sh w with COk i -> "ok " ^ str_interval i | CErr CScenarioError -> "scenario_error" | CErr CValueError -> "value_error" | CErr CAssert -> "assert")
   | "connect_one" -> let gt = next_gtab tk in let s = next_nat tk in let d = next_nat tk in let f = next_flags tk in
